@@ -126,15 +126,21 @@ def register_metadata_codec(
 
 class JSONCodec(AbstractMetadataCodec):
     def default_validator(validator, types, instance, schema):
-        # For json codec defaults must be at the top level
-        if validator.is_type(instance, "object"):
-            for v in instance.get("properties", {}).values():
-                for v2 in v.get("properties", {}).values():
-                    if "default" in v2:
+        # For json codec defaults must be at the top level. Nested sub-schemas
+        # are not themselves visited by this validator, so descend through
+        # every level of properties here.
+        def nested_defaults(properties, top_level):
+            for v in properties.values():
+                if isinstance(v, dict):
+                    if not top_level and "default" in v:
                         yield jsonschema.ValidationError(
                             "Defaults can only be specified at the top level"
                             " for JSON codec"
                         )
+                    yield from nested_defaults(v.get("properties", {}), False)
+
+        if validator.is_type(instance, "object"):
+            yield from nested_defaults(instance.get("properties", {}), True)
 
     schema_validator = jsonschema.validators.extend(
         TSKITMetadataSchemaValidator, {"default": default_validator}
